@@ -94,20 +94,43 @@ def oracle_genall(line, out):
     return None
 
 def aliasing_cases(rng, k):
-    """tensor/expand/copy must return independent objects: mutate the source
-    afterwards and observe the result (not expressible in the value model)."""
+    """tensor/expand/copy/__copy__/get_substring must return independent objects: edit either side in place
+    (set_substring at every kind of position, inc) and observe ALL views (text, bits, both halves) of the other
+    side; every object must still equal a string freshly built from its text (not expressible in the value model)."""
+    import copy as _copy
     bad = []
+    def fresh_dump(x):
+        return impl_ps.dump(PauliString(pauli_str=str(x)))
+    def edit(x, n):
+        r = rng.random()
+        if r < 0.7 and n > 0:
+            x.set_substring(rng.randint(0, n - 1), rng.choice("XYZI") if rng.random() < 0.5 else PauliString(pauli_str=rng.choice("XYZI")))
+        elif r < 0.85 and n > 0:
+            x[rng.randint(0, n - 1)] = rng.choice("XYZ")
+        else:
+            x.inc()
     for _ in range(k):
         n = rng.randint(1, 6)
         a = PauliString(pauli_str=rs(rng, n)); b = PauliString(pauli_str=rs(rng, rng.randint(1, 3)))
-        t, e, c = a.tensor(b), a.expand(n + 2), a.copy()
-        st, se, sc = str(t), str(e), str(c)
-        a.set_substring(0, rng.choice("XYZI")); a.inc(); b.inc()
-        if (str(t), str(e), str(c)) != (st, se, sc):
-            bad.append(f"result of tensor/expand/copy changed after mutating the operand ({st},{se},{sc})")
-        c2 = a.copy(); c2.inc()
-        if c2 is a or str(c2) == str(a) and n > 0 and False:
-            bad.append("copy aliases")
+        derived = {"tensor": a.tensor(b), "add": a + b, "expand": a.expand(n + 2), "expand-same": a.expand(n), "copy": a.copy(),
+                   "__copy__": _copy.copy(a), "get_substring": a.get_substring(0, n), "create_instance": a.create_instance(pauli_str=str(a))}
+        for name, d in derived.items():
+            before_d, before_a = impl_ps.dump(d), impl_ps.dump(a)
+            # edit the source, observe the derived object
+            for _e in range(rng.randint(1, 3)):
+                edit(a, n)
+            if impl_ps.dump(d) != before_d:
+                bad.append(f"{name}: result changed from {before_d} to {impl_ps.dump(d)} after editing the operand in place")
+            if impl_ps.dump(a) != fresh_dump(a):
+                bad.append(f"{name}: operand views out of sync after editing it: {impl_ps.dump(a)} vs fresh {fresh_dump(a)}")
+            # edit the derived object, observe the source
+            before_a = impl_ps.dump(a)
+            for _e in range(rng.randint(1, 3)):
+                edit(d, len(d))
+            if impl_ps.dump(a) != before_a:
+                bad.append(f"{name}: operand changed from {before_a} to {impl_ps.dump(a)} after editing the result in place")
+            if impl_ps.dump(d) != fresh_dump(d):
+                bad.append(f"{name}: result views out of sync after editing it: {impl_ps.dump(d)} vs fresh {fresh_dump(d)}")
     return bad
 
 def shrink_hist(line):
@@ -136,12 +159,12 @@ RULE = ("seeded random edit histories (set_substring with str and PauliString op
         "non-trivial = at least two edits; distinct = distinct histories")
 
 def main(tier):
-    res_extra = aliasing_cases(random.Random(seed()), 300)
+    res_extra = aliasing_cases(random.Random(seed()), 400)
     def bs(rng, tier):
         return build_streams(rng, tier)
     rc = standard_main(PID, tier, "proof", THEOREMS, IMPORTS, bs, rule=RULE,
         assumptions=["value model: object independence of tensor/expand/copy results is checked on the implementation only "
-                     "(mutate the operand afterwards, 300 cases per run)",
+                     "(8 kinds of derived objects, both sides edited in place, all views of the other side observed, 400 x 8 cases per run)",
                      "re-entrant iteration over one object (shared cursor `nextpos`) is runtime behaviour outside the model",
                      "hash is a function of `bits` (hash(str(bits))) and so covered by the equality of views"])
     if res_extra:
